@@ -437,6 +437,30 @@ func stateSnapshots(e *Env) {
 	e.Notef("snapshots: %d operations, %d returned values kept and re-compared after every later operation", n, len(keep))
 }
 
+// useSnapshot reads a returned value through its own methods.
+func useSnapshot(v interface{}) {
+	switch x := v.(type) {
+	case *state.Nick:
+		if x != nil {
+			_ = x.String()
+			for c := range x.Channels {
+				x.IsOn(c)
+			}
+		}
+	case *state.Channel:
+		if x != nil {
+			_ = x.String()
+			for n := range x.Nicks {
+				x.IsOn(n)
+			}
+		}
+	case *state.ChanPrivs:
+		if x != nil {
+			_ = x.String()
+		}
+	}
+}
+
 func describe(v interface{}) string {
 	switch x := v.(type) {
 	case *state.Nick:
@@ -472,7 +496,10 @@ func stateConcurrent(e *Env) {
 	}
 	uniq := 0
 	var ops []porcupine.Operation
-	type planned struct{ ops []tOp }
+	type planned struct {
+		ops []tOp
+		use []bool // format the returned snapshot in the calling task
+	}
 	plans := make([]planned, nTasks)
 	shadow := m0.clone() // only for biasing generation
 	for t := 0; t < nTasks; t++ {
@@ -498,6 +525,7 @@ func stateConcurrent(e *Env) {
 				op = tOp{"GetChannel", []string{u.chans[g.Intn(len(u.chans))]}}
 			}
 			plans[t].ops = append(plans[t].ops, op)
+			plans[t].use = append(plans[t].use, g.Intn(3) == 0)
 			applyOp(shadow, op)
 		}
 	}
@@ -505,11 +533,17 @@ func stateConcurrent(e *Env) {
 	for t := 0; t < nTasks; t++ {
 		t := t
 		e.S.Spawn(fmt.Sprintf("caller%d", t), func() {
-			for _, op := range plans[t].ops {
+			for i, op := range plans[t].ops {
 				call := e.S.Stamp()
-				out, _ := applyOp(st, op)
+				out, val := applyOp(st, op)
 				ret := e.S.Stamp()
 				ops = append(ops, porcupine.Operation{ClientId: t, Input: op, Call: int64(call), Output: out, Return: int64(ret)})
+				if plans[t].use[i] {
+					// a snapshot belongs to its caller: using it takes no lock and
+					// must not meet anything another task touches (what this is worth
+					// is decided by the race detector in the memory-model tier)
+					useSnapshot(val)
+				}
 			}
 			done++
 		})
@@ -518,6 +552,7 @@ func stateConcurrent(e *Env) {
 		e.Violation("stuck", "concurrent tracker calls did not all return (a lock leaked on some path?)\n%s", e.S.TaskDump())
 		return
 	}
+	e.S.Joined()
 	model := porcupine.Model{
 		Init: func() interface{} { return linState{m0, m0.encode()} },
 		Step: func(s, in, out interface{}) (bool, interface{}) {
